@@ -385,6 +385,24 @@ func runCheck(id, tier string) int {
 			}
 		}
 	}
+	if id == "C04" && len(conf) > 0 {
+		var all []ConfCase
+		for _, r := range results {
+			all = append(all, r.Conf...)
+		}
+		compiled, viols, err := compileBatch(all)
+		if err != nil {
+			fmt.Fprintln(os.Stderr, "harness error: compile batch:", err)
+			return 2
+		}
+		merged.Conformance += int64(compiled)
+		merged.Counters["packages_compiled_vetted_initialised"] = int64(compiled)
+		for _, v := range viols {
+			merged.NViolations++
+			merged.Violations = append(merged.Violations, v)
+		}
+		conf = nil
+	}
 	if len(conf) > 0 && os.Getenv("VERIF_NO_CONFORMANCE") == "" {
 		validated, mism, err := runConformance(conf)
 		if err != nil {
